@@ -445,6 +445,11 @@ class ExprMixin:
                     yield st_stop, a
         yield from go(0, st)
 
+    def opq_may_raise(self, st, what):
+        """Operations on values of unknown type run user code: under `opaque_raise` they may raise anything."""
+        if getattr(self, "opaque_raise", False) and not self.spec:
+            self.raise_(st, "$any", msg=what)
+
     def as_value(self, x):
         if isinstance(x, V):
             return x
@@ -454,6 +459,13 @@ class ExprMixin:
                 x.recv_val.t.inner if isinstance(x.recv_val.t, TOpt) else x.recv_val.t, TOpaque):
             # attribute of an opaque object used as a value
             return fresh(TOpaque(f"attr_{x.name}"), "opq")
+        if isinstance(x, BuiltinRef) and "." in x.name and not x.name.startswith("$"):
+            # a library object used as a value (e.g. opcode.opname): an opaque constant
+            t_ = TOpaque("libobj")
+            return V(t_, [z3.Const("LIB_" + x.name.replace(".", "_"), zsort(t_))])
+        if isinstance(x, ClassRef):
+            t_ = TOpaque("classobj")
+            return V(t_, [z3.Const("CLS_" + x.name, zsort(t_))])
         if isinstance(x, (FuncRef, ClassRef, BuiltinRef, ModRef, MethodRef)):
             return mk_bool(True)
         raise EngineError(f"not a value: {x}")
@@ -556,6 +568,7 @@ class ExprMixin:
             return
         if isinstance(ta, TOpaque) or isinstance(tb, TOpaque):
             self.note_assumed(f"arithmetic on an opaque value: {ast.unparse(node)[:60]} (unknown result, assumed not to raise)")
+            self.opq_may_raise(st, "arithmetic on a value of unknown type")
             yield st, fresh(TOpaque("arith"), "opq")
             return
         if not (vals.is_num(ta) and vals.is_num(tb)):
@@ -684,7 +697,9 @@ class ExprMixin:
                 r = a.name == b.name
                 yield st, z3.BoolVal(r if isinstance(op, (ast.Is, ast.Eq)) else not r)
                 return
-            raise EngineError(f"comparison of non-values {ast.unparse(node)}")
+            if isinstance(a, FuncRef) or isinstance(b, FuncRef):
+                raise EngineError(f"comparison of non-values {ast.unparse(node)}")
+            a, b = self.as_value(a), self.as_value(b)      # class / library objects as opaque constants
         if isinstance(a, Bag) or isinstance(b, Bag):
             raise EngineError("comparison of comprehension results")
         if isinstance(a, MethodRef) or isinstance(b, MethodRef):
@@ -696,10 +711,15 @@ class ExprMixin:
                 and (ta_ != tb_ or not self.spec or isinstance(op, (ast.Lt, ast.LtE, ast.Gt, ast.GtE))):
             # comparison involving a value of unknown type: unknown outcome (assumed not to raise)
             self.note_assumed(f"comparison with an opaque value: {ast.unparse(node)[:60]}")
+            self.opq_may_raise(st, "comparison with a value of unknown type")
             yield st, z3.Bool(fresh_name("opq_cmp"))
             return
         if isinstance(op, (ast.Is, ast.IsNot)):
-            c = self.identical(a, b)
+            if (isinstance(ta_, TOpaque) or isinstance(tb_, TOpaque)) and ta_ != tb_ \
+                    and not isinstance(a.t, TNone) and not isinstance(b.t, TNone):
+                c = z3.Bool(fresh_name("opq_is"))       # identity of values of unknown type: unknown
+            else:
+                c = self.identical(a, b)
             yield st, (c if isinstance(op, ast.Is) else z3.Not(c))
             return
         if isinstance(op, (ast.Eq, ast.NotEq)):
@@ -829,6 +849,11 @@ class ExprMixin:
         if isinstance(t, TTuple):
             yield st, z3.Or(*[py_eq(it, a) for it in tuple_items(cont)])
             return
+        if isinstance(t, TOpaque) or isinstance(a.t, TOpaque):
+            self.note_assumed(f"membership test involving an opaque value: {ast.unparse(node)[:60]}")
+            self.opq_may_raise(st, "membership test on a value of unknown type")
+            yield st, z3.Bool(fresh_name("opq_in"))
+            return
         raise EngineError(f"'in' on {t}")
 
     # ------------------------------------------------------------------ containers literals
@@ -952,6 +977,11 @@ class ExprMixin:
                 fr = FuncRef(self.ct.classes[m[0]].module, f"{m[0]}.__getitem__", bound_self=base, cls=t.cls)
                 yield from self.call_function(st, fr, [idx], {}, node)
                 return
+        if isinstance(t, TOpaque):
+            self.note_assumed(f"subscript on an opaque value: {ast.unparse(node)[:60]} (unknown result)")
+            self.opq_may_raise(st, "subscript on a value of unknown type")
+            yield st, fresh(TOpaque("unk"), "item")
+            return
         raise EngineError(f"subscript on {t}: {ast.unparse(node)}")
 
     def slice_of(self, st, base, sl, node):
